@@ -28,6 +28,9 @@ def char_scenarios(rng, quick):
         filler = [0x4E00 + i for i in range(A - 1)]
         for L in range(1, 14):
             out.append(sc(dict(len=L, allowChars=filler, requireSets=[o("0")]), paths=3, tag="band"))
+    # ... and one-character recipes "k required characters out of N" right at the threshold 0.0984468 (tight band)
+    for k, N in ((5, 51), (10, 102), (96, 976), (49, 499), (98, 995), (99, 1005), (10, 101), (2, 21), (1, 10)):
+        out.append(sc(dict(len=1, allowChars=[0x4E00 + i for i in range(k, N)], requireSets=[[0x4E00 + i for i in range(k)]]), paths=3, tag="band-tight"))
     # overlapping required sets with real classes (were refused/NaN before the count was repaired)
     for L in (1, 2, 4, 8, 20):
         out.append(sc(dict(len=L, allow=3, require=4, requireSets=[o("357")]), tag="overlap"))
